@@ -24,6 +24,11 @@ int verif_snprintf(char *buf, size_t size, const char *fmt);
 #define snprintf(buf, size, ...) verif_snprintf((buf), (size), VERIF_FIRST(__VA_ARGS__, 0))
 #define VERIF_FIRST(a, ...) (a)
 
+/* fprintf/printf are variadic (see snprintf above); their output is not part of
+ * any property: calls are dropped (arguments are plain reads in libjwt). */
+#undef fprintf
+#define fprintf(...) ((int)0)
+
 /* Nondeterministic values */
 int nondet_int(void);
 unsigned int nondet_uint(void);
